@@ -135,6 +135,15 @@ K_GRID = lambda C: [-5, -1, 0, 1, 2, C - 1, C, C + 3]
 
 def masked_choices(rng, C):
   m = int(rng.randint(1, C)) if C > 1 else 0
+  if rng.rand() < 0.2:
+    # three or four masked values, listed in any order and possibly with repeats (the SET of listed values is masked): e.g.
+    # (0, 3, 2), (0, 0, 2), (3, 0, 4, 5) -- tuples whose first / last / length happen to look like a contiguous range included
+    k = int(rng.randint(3, 5))
+    vals = [int(v) for v in rng.randint(0, C + 2, size=k)]
+    if rng.rand() < 0.5:
+      lo = int(rng.randint(0, max(1, C - 1)))
+      vals = [lo] + [int(v) for v in rng.randint(0, C + 2, size=k - 2)] + [lo + k - 1]     # first..last spans exactly k values
+    return tuple(vals)
   return [(0,), (0,), (), (0, m), (m,), (0, C + 5), (C + 2,)][rng.randint(7)]
 
 
@@ -192,7 +201,9 @@ def make_metric(M, name, rng, C, L, tkey='y', pkey=None, dkey='domain_id', D=3, 
     kw = dict(common, masked_target_values=masked_choices(rng, C))
   elif name == 'SequenceTruncationRate':
     masked = masked_choices(rng, C)
-    cand = [c for c in range(C) if c not in masked] or [C]   # eos is never a masked value
+    # eos is never a masked value: "masked values are ignored in computation" and "truncated sequences will not have this value"
+    # give no defined answer for a masked eos (C14 assumption)
+    cand = [c for c in range(C) if c not in masked] or [C]
     kw = dict(common, masked_target_values=masked, eos_target_value=int(cand[rng.randint(len(cand))]))
   elif name == 'SequenceTokenOOVRate':
     r = rng.rand()
